@@ -50,7 +50,20 @@ def dump(n):
     return ast.dump(n, annotate_fields=True, include_attributes=False)
 
 
+def _norm_targets(n):
+    """R11: a list display used as an assignment target is the same as a tuple target (Language Reference 7.2)."""
+    class T(ast.NodeTransformer):
+        def visit_List(self, node):
+            node = self.generic_visit(node)
+            if isinstance(getattr(node, "ctx", None), ast.Store):
+                return ast.Tuple(elts=node.elts, ctx=ast.Store())
+            return node
+
+    return T().visit(n)
+
+
 def strip_ctx(n):
+    n = _norm_targets(n)
     for x in ast.walk(n):
         if isinstance(x, (ast.FunctionDef, ast.ClassDef)) and "type_params" not in x.__dict__:
             x.type_params = []
@@ -167,43 +180,66 @@ class Eraser(ast.NodeTransformer):
         return self.generic_visit(n)
 
     def merge_gensym(self, stmts):
-        """R3/R4: t = E; x1 = t; ...; xn = t  |->  x1 = ... = xn = E   and   t = E; x_i = t[i]  |->  (x0..) = E.
-        Applied innermost-first (the last temporary first) so that nested tuple targets are rebuilt."""
+        """R3: t = E; x1 = t; ...; xn = t  |->  x1 = ... = xn = E
+        R4: (t0, ..., *tk, ...) = E; x0 = t0; ...; xn = tn  |->  (x0, ..., *xk, ...) = E   (temporaries bound by a real unpacking
+        assignment and each used exactly once, in order: no side condition on E).
+        Applied innermost-first (the last group first) so that nested tuple targets are rebuilt."""
         stmts = list(stmts)
-        reported = False
+
+        def is_tmp(n):
+            return isinstance(n, ast.Name) and n.id.startswith("_ptera__")
+
+        def unpack_temps(s):
+            if not (isinstance(s, ast.Assign) and len(s.targets) == 1 and isinstance(s.targets[0], (ast.Tuple, ast.List))):
+                return None
+            out = []
+            for e in s.targets[0].elts:
+                if is_tmp(e):
+                    out.append((e.id, False))
+                elif isinstance(e, ast.Starred) and is_tmp(e.value):
+                    out.append((e.value.id, True))
+                else:
+                    return None
+            return out or None
+
         while True:
             idx = None
             for i in range(len(stmts) - 1, -1, -1):
                 s = stmts[i]
-                if (isinstance(s, ast.Assign) and len(s.targets) == 1 and isinstance(s.targets[0], ast.Name)
-                        and s.targets[0].id.startswith("_ptera__") and not getattr(s, "_kept", False)):
+                if getattr(s, "_kept", False):
+                    continue
+                if unpack_temps(s) or (isinstance(s, ast.Assign) and len(s.targets) == 1 and is_tmp(s.targets[0])):
                     idx = i
                     break
             if idx is None:
                 return stmts
             s = stmts[idx]
+            temps = unpack_temps(s)
+            if temps:
+                group = stmts[idx + 1: idx + 1 + len(temps)]
+                ok = len(group) == len(temps) and all(
+                    isinstance(u, ast.Assign) and len(u.targets) == 1 and isinstance(u.value, ast.Name) and u.value.id == t
+                    for u, (t, _) in zip(group, temps))
+                if ok:
+                    elts = [ast.Starred(value=u.targets[0], ctx=ast.Store()) if st else u.targets[0] for u, (_, st) in zip(group, temps)]
+                    cls = type(s.targets[0])
+                    stmts[idx: idx + 1 + len(temps)] = [ast.Assign(targets=[ast.Tuple(elts=elts, ctx=ast.Store())], value=s.value)]
+                    continue
+                self.problems.append(Problem("R4", "unpacking temporaries are not each bound to one target, in order"))
+                s._kept = True
+                continue
             t = s.targets[0].id
             j = idx + 1
-            plain, indexed = [], []
+            plain = []
             while j < len(stmts):
                 u = stmts[j]
-                if isinstance(u, ast.Assign) and len(u.targets) == 1 and isinstance(u.value, ast.Name) and u.value.id == t and not indexed:
+                if isinstance(u, ast.Assign) and len(u.targets) == 1 and isinstance(u.value, ast.Name) and u.value.id == t:
                     plain.append(u.targets[0])
-                    j += 1
-                elif (isinstance(u, ast.Assign) and len(u.targets) == 1 and isinstance(u.value, ast.Subscript)
-                      and isinstance(u.value.value, ast.Name) and u.value.value.id == t and isinstance(u.value.slice, ast.Constant)
-                      and u.value.slice.value == len(indexed) and not plain):
-                    indexed.append(u.targets[0])
                     j += 1
                 else:
                     break
             if plain:
                 stmts[idx:j] = [ast.Assign(targets=plain, value=s.value)]
-            elif indexed:
-                if not reported:
-                    self.problems.append(Problem("R4-side-condition", "tuple target is unpacked by indexing t[0..n-1]: equivalent only if the right-hand side is an exactly-n-long indexable sequence"))
-                    reported = True
-                stmts[idx:j] = [ast.Assign(targets=[ast.Tuple(elts=indexed, ctx=ast.Store())], value=s.value)]
             else:
                 self.problems.append(Problem("R3", "gensym temporary not followed by its uses"))
                 s._kept = True
@@ -271,6 +307,9 @@ class Eraser(ast.NodeTransformer):
         if body and isinstance(body[0], ast.Expr) and isinstance(body[0].value, ast.Constant) and isinstance(body[0].value.value, str):
             doc = [body[0]]
             body = body[1:]
+        # R12: the position of global/nonlocal declarations at the top level of a body is irrelevant: they are kept in front
+        decls = [s for s in body if isinstance(s, (ast.Global, ast.Nonlocal))]
+        body = [s for s in body if not isinstance(s, (ast.Global, ast.Nonlocal))]
         # R7: with proceed(self) as frame: B  |->  B
         if len(body) == 1 and isinstance(body[0], ast.With) and len(body[0].items) == 1:
             w = body[0]
@@ -286,7 +325,9 @@ class Eraser(ast.NodeTransformer):
         # R9: the docstring is duplicated inside the wrapper
         if doc and inner and dump(inner[0]) == dump(doc[0]):
             inner = inner[1:]
-        n.body = doc + inner
+        inner_decls = [s for s in inner if isinstance(s, (ast.Global, ast.Nonlocal))]
+        inner = [s for s in inner if not isinstance(s, (ast.Global, ast.Nonlocal))]
+        n.body = doc + decls + inner_decls + inner
         self._in_root = False
         return n
 
